@@ -53,7 +53,7 @@ def c02(ck, replay=None):
     ck.l1('ServletNet/answered (liveness)', 'ServletNet',
           net_cfg(2, 'ens', invariants=[], properties=['AllAnswered'], spec='FairSpec'), coverage=False, timeout=2400)
     ck.l1('ServerCore/ledger', 'ServerCoreMC', SRV.core_cfg(3, 2, 'AllMixes', ['NoLostResponse', 'OwnResult']),
-          may_skip=('Next', 'LoopSet', 'GatherMiss'))
+          may_skip=('Next', 'LoopSet', 'GatherMiss', 'CallerNoTimeLeft'))
     ck.sensitive('request id reused while a slow ensemble member still holds it (D7)', 'ServletNet',
                  net_cfg(2, 'ens', failfast=True, fresh=False, invariants=['NoCrossTalk']), 'invariant', 'NoCrossTalk')
     ck.sensitive('input queued before the ledger entry exists (D4)', 'ServerCoreMC',
